@@ -209,8 +209,8 @@ def _impersonate_window(
         return mss * signature.window.size
 
     if signature.window.type == WindowType.MOD:
-        return signature.window.size * random.randrange(
-            1, 2**16 // signature.window.size
+        return signature.window.size * random.randint(
+            1, (2**16 - 1) // signature.window.size
         )
 
     if signature.window.type == WindowType.MTU:
